@@ -48,6 +48,10 @@ def measure(port):
 
 # ------------------------------------------------------------------ scenario language
 def H(sid, status, body, reqlen=0, incr=0, es=1, dep="-", padbad=0, contbad=0):
+    if not es and status != 400 and reqlen == 0:
+        reqlen = -1            # no END_STREAM and no content-length: body length unknown
+    if status == 400:
+        reqlen = 0             # rejected request: body length forced to 0
     return "H:%d:r%d,%d,%d,%d:%d:%s:%d:%d" % (sid, status, body, reqlen, incr, es, dep, padbad, contbad)
 
 
@@ -121,8 +125,9 @@ def gen(ctx, l404, l400):
     return lines
 
 
-def build_frames(c, tok, rng):
-    """token -> raw bytes for the real server"""
+def build_frames(c, tok, rng, opened=None):
+    """token -> raw bytes for the real server; `opened` = stream ids that already carried HEADERS
+    (a further HEADERS frame on them is sent as trailers: no pseudo-header fields)"""
     a = tok.split(":")
     k = a[0]
     if k == "S":
@@ -158,6 +163,8 @@ def build_frames(c, tok, rng):
         sid, kind, es, dep, padbad, contbad = int(a[1]), a[2], int(a[3]), a[4], int(a[5]), int(a[6])
         if kind == "x":
             blk = b"\xff\xff\xff\xff\xff\xff\xff"
+        elif opened is not None and sid in opened:
+            blk = c.hp.encode([("x-trailer", "t%d" % sid)])
         else:
             status, body, reqlen, incr = [int(x) for x in kind[1:].split(",")]
             method = "GET" if es else "POST"
@@ -337,8 +344,12 @@ def run_scenario(port, line, expect, seed):
     import random
     rng = random.Random(seed)
     toks = line.split(" ")[1:]
-    c = e2e.H2Conn(port)
+    try:
+        c = e2e.H2Conn(port)
+    except OSError:
+        return None, None, "connect-failed"
     obs, sent_steps, frame_steps = [], [], []
+    opened = set()
     try:
         c.pump(5.0, until=lambda f: any(x[0] == 4 and not (x[1] & 1) for x in f))
         time.sleep(0.03)
@@ -346,7 +357,9 @@ def run_scenario(port, line, expect, seed):
         batch, btoks, qi = b"", [], 0
         for t in toks:
             if t != "q":
-                batch += build_frames(c, t, rng)
+                batch += build_frames(c, t, rng, opened)
+                if t.startswith("H:"):
+                    opened.add(int(t.split(":")[1]))
                 btoks.append(t)
                 continue
             start = len(c.frames)
@@ -423,11 +436,31 @@ def run(ctx):
                               enumerate(zip(lines, expects))))
         alive = srv.alive()
     rep = srv.sanitizer_report()
-    if rep or not alive:
-        ctx.violation("crash:h2", "server crashed / sanitizer report during HTTP/2 frame scenarios",
-                      {"property": ctx.pid, "kind": "sanitizer-or-crash", "correspondence": "e2e-h2-frames",
-                       "stderr": (rep or srv.logs())[-4000:]}, found=True)
     ndis = 0
+    if rep or not alive:
+        # find the scenario that kills the server: replay candidates one by one on fresh servers
+        cand = [i for i, r_ in enumerate(res) if r_[2] == "connect-failed"]
+        first = min(cand) if cand else len(lines)
+        culprit = None
+        for i in range(max(0, first - 24), min(len(lines), first + 1)):
+            s2 = e2e.Server(bd, CONF, modules=())
+            setup_docroot(s2)
+            with s2:
+                try:
+                    run_scenario(s2.port, lines[i], expects[i], ctx.seed * 100003 + i)
+                except Exception:
+                    pass
+                time.sleep(0.2)
+                dead = not s2.alive()
+            if dead or s2.sanitizer_report():
+                culprit = (lines[i], s2.sanitizer_report() or s2.logs())
+                break
+        ctx.violation("crash:h2:" + ((culprit[1] or "")[:60] if culprit else "unknown"),
+                      "server crashed / sanitizer report on an HTTP/2 frame scenario",
+                      {"property": ctx.pid, "kind": "sanitizer-or-crash", "correspondence": "e2e-h2-frames",
+                       "input": culprit[0] if culprit else None,
+                       "stderr": ((culprit[1] if culprit else rep) or "")[-4000:]}, found=culprit is not None)
+        return
     for line, exp, (canon, verdict, frames) in zip(lines, expects, res):
         ctx.evaluations += 1
         ctx.keys["h2:" + "|".join(",".join(sorted(set(x[0] for x in e[0]))) + ":" + str(len(e[1])) for e in exp)[:60]] += 1
